@@ -76,6 +76,10 @@ type rxRunner struct {
 	complete int
 	stuck    bool
 	lates    int
+	// capacity of the channel's package queue for the next connections (0: large, nothing ever waits)
+	k int
+	// > 0: the next NextPackageUntil run gets the response in two instalments (see runUntil)
+	lazy int
 }
 
 func pkgsDesc(ps []wPkg) []map[string]interface{} {
@@ -108,6 +112,9 @@ func (r *rxRunner) fresh(reader bool, timeout int) error {
 	info := newInfo()
 	info.PacketReadTimeout = timeout
 	info.ChannelPackageQueueSize = 4096
+	if r.k > 0 {
+		info.ChannelPackageQueueSize = r.k
+	}
 	conn, err := tds.NewConnWithTransport(context.Background(), r.mc, info, reader)
 	if err != nil {
 		return err
@@ -165,12 +172,21 @@ func recvErrClass(err error) string {
 
 // sendDirect hands the response, cut at the given offsets, to Channel.WritePacket.
 func (r *rxRunner) sendDirect(resp []byte, cuts []int) {
+	r.sendDirectRange(resp, cuts, 0, -1)
+}
+
+// sendDirectRange hands the packets number first..last-1 of the packetisation over (last < 0: all the rest)
+func (r *rxRunner) sendDirectRange(resp []byte, cuts []int, first, last int) {
 	from := 0
 	// a repeated cut is a header-only packet in mid-response; a cut at len(resp) leaves the last data
 	// packet without EOM and ends the message with a header-only EOM packet
 	bounds := append(append([]int{}, cuts...), len(resp))
 	for bi, to := range bounds {
 		eom := bi == len(bounds)-1
+		if bi < first || (last >= 0 && bi >= last) {
+			from = to
+			continue
+		}
 		r.tr.Emit(Ev{"ev": "Packet", "from": from, "to": to, "eom": eom})
 		pk := &tds.Packet{Data: append([]byte(nil), resp[from:to]...)}
 		pk.Header.MsgType = tds.TDS_BUF_RESPONSE
@@ -287,6 +303,10 @@ func (r *rxRunner) runReader(id int, resp []byte, cuts []int, chunks []int, mode
 	if off < len(stream) {
 		r.mc.Feed(stream[off:])
 	}
+	if r.k > 0 {
+		// a slow consumer: the reader goroutine has filled the small package queue and waits
+		time.Sleep(30 * time.Millisecond)
+	}
 	// consume until the final DONE (every judged response ends with one, real or synthetic)
 	for {
 		ctx, cancel := context.WithTimeout(context.Background(), 3*time.Second)
@@ -319,6 +339,11 @@ var errCb = errors.New("callback failed")
 var errCbWrapsEOF = fmt.Errorf("callback gave up reading its input: %w", io.EOF)
 
 func (r *rxRunner) consumeUntil(script []string, nilAt int) {
+	r.consumeUntilW(script, nilAt, false)
+}
+
+// consumeUntilW: firstNoWait = the first NextPackageUntil call is made with wait = false
+func (r *rxRunner) consumeUntilW(script []string, nilAt int, firstNoWait bool) {
 	calls := 0
 	cbs := 0
 	for {
@@ -360,7 +385,7 @@ func (r *rxRunner) consumeUntil(script []string, nilAt int) {
 			}
 		}
 		ctx, cancel := context.WithTimeout(context.Background(), 2*time.Second)
-		pkg, err := r.ch.NextPackageUntil(ctx, true, cb)
+		pkg, err := r.ch.NextPackageUntil(ctx, !(firstNoWait && calls == 0), cb)
 		cancel()
 		calls++
 		ret := "nil"
@@ -378,6 +403,8 @@ func (r *rxRunner) consumeUntil(script []string, nilAt int) {
 			r.lates++
 		case errors.Is(err, io.EOF):
 			class = "eof"
+		case errors.Is(err, tds.ErrNoPackageReady):
+			class = "noready"
 		}
 		eeds := []int{}
 		var ee *tds.EEDError
@@ -387,6 +414,10 @@ func (r *rxRunner) consumeUntil(script []string, nilAt int) {
 			}
 		}
 		r.tr.Emit(Ev{"ev": "UntilEnd", "ret": ret, "err": class, "iscb": err != nil && (errors.Is(err, errCb) || errors.Is(err, errCbWrapsEOF)), "eeds": eeds})
+		if class == "noready" && calls < 50 {
+			time.Sleep(5 * time.Millisecond)
+			continue // nothing was queued yet: call again (the following calls wait)
+		}
 		if useNil || sawFinal || outcome == "err" || class == "ctx" || class == "other" {
 			return
 		}
@@ -407,9 +438,26 @@ func (r *rxRunner) runUntil(id int, resp []byte, cuts []int, fresh bool, eedHook
 	if fresh || eedHooks+envHooks > 0 {
 		r.addHooks(eedHooks, envHooks)
 	}
-	r.sendDirect(resp, cuts)
-	if !r.stuck {
-		r.consumeUntil(script, nilAt)
+	if r.lazy > 0 && len(cuts) >= 1 {
+		// the response arrives in two instalments: the consumer's first call (wait = false) finds only
+		// the first packets queued and has to go on waiting for the rest
+		first := 1 + (r.lazy-1)%len(cuts)
+		r.sendDirectRange(resp, cuts, 0, first)
+		done := make(chan struct{})
+		go func() {
+			defer close(done)
+			time.Sleep(25 * time.Millisecond)
+			r.sendDirectRange(resp, cuts, first, -1)
+		}()
+		if !r.stuck {
+			r.consumeUntilW(script, nilAt, true)
+		}
+		<-done
+	} else {
+		r.sendDirect(resp, cuts)
+		if !r.stuck {
+			r.consumeUntil(script, nilAt)
+		}
 	}
 	r.drain()
 	r.runEnd()
@@ -1050,8 +1098,15 @@ func rxMain(args []string) error {
 			if ci > 0 && i%3 != 0 {
 				parts = parts[:6]
 			}
-			for _, p := range parts {
-				if err := r.runReader(1, resp, cs, p, "frag", 1, 1); err != nil {
+			for pi, p := range parts {
+				// every third run with a package queue of 1..3 entries and a consumer that starts late
+				r.k = 0
+				if pi%3 == 1 {
+					r.k = 1 + (pi+i)%3
+				}
+				err := r.runReader(1, resp, cs, p, "frag", 1, 1)
+				r.k = 0
+				if err != nil {
 					return err
 				}
 			}
@@ -1186,7 +1241,13 @@ func rxMain(args []string) error {
 			if rng.Intn(5) == 0 {
 				nilAt = rng.Intn(2)
 			}
-			if err := r.runUntil(k+1, resp, cs, k == 0, b2i(k == 0)*(1+rng.Intn(2)), b2i(k == 0), script, nilAt); err != nil {
+			r.lazy = 0
+			if rng.Intn(4) == 0 && nilAt < 0 {
+				r.lazy = 1 + rng.Intn(3)
+			}
+			err := r.runUntil(k+1, resp, cs, k == 0, b2i(k == 0)*(1+rng.Intn(2)), b2i(k == 0), script, nilAt)
+			r.lazy = 0
+			if err != nil {
 				return err
 			}
 		}
